@@ -211,7 +211,15 @@ func main() {
 		seen[h] = true
 		nontrivial := false
 		opN := normalise(c.Op).(map[string]any)
+		if rm, ok := res.(map[string]any); ok && jBool(rm["_clobbered"]) {
+			// an op that holds the bytes an encoder returned while other values are encoded: they changed
+			rep.Violations = append(rep.Violations, Violation{Sig: *prop + "/encoding-clobbered",
+				Desc: "the bytes returned by an encoder changed when other values were encoded afterwards (shared buffer): " + jStr(rm["_clobbered_by"]), Op: opN, Res: res})
+		}
 		for _, m := range monitors[*prop] {
+			if rm, ok := res.(map[string]any); ok && jBool(rm["_clobbered"]) {
+				break // there is no result to judge
+			}
 			v, nt := m(opN, res)
 			nontrivial = nontrivial || nt
 			for i := range v {
@@ -423,3 +431,13 @@ func stableOp(name string) bool {
 	}
 	return true
 }
+
+// heldUnchanged: does b still hold the same bytes after noise() has run?  (encoders are called again with
+// other inputs while the caller still holds b, as libocr holds outcomes, observations and reports)
+func heldUnchanged(b []byte, noise func()) bool {
+	c := string(b)
+	noise()
+	return string(b) == c
+}
+
+func clobbered(by string) J { return J{"ok": nil, "_clobbered": true, "_clobbered_by": by} }
